@@ -6,7 +6,11 @@ proof: Props/C20.v over gen/Routes_gen.v (regenerated on every run from pynmon's
          read-only methods leaves the whole system as it was, whether it returns or fails;
        * every generated GET route except the queue view reaches read-only methods only;
        * the queue view (drain-and-requeue because the broker has no peek) is decided from its
-         generated shape: restoring for all states, or refuted by a computed witness.
+         generated shape: restoring for all states, or refuted by a computed witness;
+       * over gen/ReadImpl_gen.v (regenerated from the backend classes' AST): every read-only classified
+         method is implemented, in both backends, by code whose only effects are calls of read-only
+         methods - no store / del / in-place operator / mutating method on a stored container (not even
+         through a local alias), no SQL write, no sweep piggy-backed on a listing.
 tie:   (1) translator harness/translate/routes.py (route table from decorators, pynmon call graph,
            component API calls, queue-view shape), cross-checked against FastAPI's route table;
        (2) API-level correspondence: every read-only classified method is called on the real
@@ -14,7 +18,12 @@ tie:   (1) translator harness/translate/routes.py (route table from decorators, 
        (3) route-level correspondence: every GET route is requested through Starlette's TestClient
            with generated parameters against generated system states (queues longer than the limit,
            partially purged stores) on both backends; full read-out before/after; the model predicts
-           the queue afterwards (exactly) and whether the queue view fails.
+           the queue afterwards (exactly) and whether the queue view fails;
+       (4) list routes with every PAIR of filters set to selecting values (all tasks x all statuses present)
+           on a state where every task has invocations in several statuses;
+       (5) everything again on states that have AGED: the clock of pynenc/pynmon is put ahead of every
+           configured duration (retention, dead-runner, stuck-invocation thresholds) while the page is
+           served (controlled clock, nothing sleeps), incl. states with exactly one finished invocation.
 oracle: before == after on the implementation's read-out (independent of the model).
 """
 from __future__ import annotations
@@ -42,13 +51,28 @@ MANIFEST = {
             "generated from pynmon's decorators and call graph, except the queue view, reaches read-only methods only (finite, "
             "vm_compute over the regenerated table; unknown calls count as mutating); the queue view is decided from its "
             "generated shape: shapes that peek or drain-everything-and-restore preserve every state, every other shape is refuted "
-            "by a computed witness (queue longer than the limit: rotated; queued id without a stored record: popped messages lost). "
+            "by a computed witness (queue longer than the limit: rotated; queued id without a stored record: popped messages lost); "
+            "over a second generated table (effects of the in-memory and SQLite implementation of every read-only classified "
+            "method, followed through self-calls, helper objects and module helpers, with flow-sensitive tracking of local names "
+            "that alias stored containers) every such method has no effect but calls of read-only methods - no in-place write to a "
+            "stored container, no SQL write, no housekeeping sweep inside a listing - and every backend method a GET route reaches "
+            "is in that table for both backends. "
             "Tie: FastAPI's live route table must equal the generated one; every read-only method is executed on the real in-memory "
             "and SQLite components, and every GET route is requested through TestClient with existing/missing/malformed ids and "
             "small/large limits against generated operation histories incl. queues longer than the limit and partially purged "
-            "stores, with a full read-out before and after; the model's predicted queue after the queue view must equal the real one.",
+            "stores, with a full read-out before and after; the model's predicted queue after the queue view must equal the real one. "
+            "List routes are additionally requested with every pair of filters set to values that select something (each task x "
+            "each status present, workflow filters) on a state where every task has invocations in several statuses, and the listing "
+            "API methods with every task/status filter combination. Every route and every read-only method is also exercised on "
+            "AGED states: while the request is served the wall clock seen by pynenc and pynmon is ahead of each configured "
+            "duration (final-invocation retention, dead-runner and stuck-invocation thresholds, event retention; read off the live "
+            "config objects; controlled clock, nothing sleeps), on states with exactly one finished invocation, a failed one, and a "
+            "rich mix, so that time-driven housekeeping reachable from a page shows up in the read-out.",
     "note": "Trusted: Coq kernel; AST translator (fail-closed: unknown calls are mutating; unrecognised queue-view shape degrades "
-            "to the committed default and the read-out decides); read-out = internal containers of the in-memory components / "
+            "to the committed default and the read-out decides; harness/translate/readimpl.py degrades the same way on SQL text it "
+            "cannot resolve or calls on other components outside the API table; attributes named lock/cache/logger/thread are not "
+            "state); controlled clock = time.time / time() / datetime.now as imported by pynenc.* and pynmon.* modules; while a page "
+            "is served SQLite lock waiting is cut to 0.1 s (the harness is the only client, a wait can never succeed); read-out = internal containers of the in-memory components / "
             "full table dump of the SQLite file (queue projected to the id order). Outside the model: Jinja templates, FastAPI, "
             "methods of domain objects reached outside pynmon's own call graph (covered by the read-out only). "
             "GET /switch-app changes which app the monitor shows (monitor-local selection, not the monitored system).",
@@ -1123,15 +1147,23 @@ def main(ctx: Ctx) -> int:
         "API semantics in Model/Monitor.v are abstractions (what is returned is coarse); what is tied to the code is: read-only "
         "classified methods leave the full read-out unchanged on both backends; broker count/retrieve/route/peek agree with prim",
         "sequential requests (no concurrent runner while a page is served)",
+        "aged states: only the wall clock read by pynenc.* / pynmon.* module code is moved (time.time, time(), datetime.now / "
+        "utcnow / today as bound in those modules); SQLite's own CURRENT_TIMESTAMP and clocks bound as default arguments are not",
+        "implementation-effects table (gen/ReadImpl_gen.v): syntactic, per class hierarchy of the four backend components; "
+        "effects inside imported helpers of other modules and inside domain objects are not followed (covered by the read-out)",
         "read-out: internal containers of the in-memory components (locks, loggers, caches of runner contexts excluded; empty "
         "default entries ignored) / every table of the SQLite file (queue table projected to the id order)",
     ]
     ctx.trusted += ["AST translator harness/translate/routes.py (route table cross-checked against FastAPI's live table on every run)",
+                    "AST translator harness/translate/readimpl.py (thorough tier: seeded edits must flip its table)",
                     "Starlette TestClient as the HTTP front end"]
     return ctx.finish(
         rule="every live GET route x generated states (flavours long/purged/mixed/plain, both backends) x generated path/query "
              "parameters (existing, record-purged, unknown, malformed ids; limits around the queue length); + every read-only "
-             "classified API method on every state; + broker op sequences vs prim; + every queue-view request vs qv_run gen_qv. "
+             "classified API method on every state; + broker op sequences vs prim; + every queue-view request vs qv_run gen_qv; "
+             "+ list routes x every pair of selecting filter values on the rich state and on the generated states; + every route "
+             "and read-only method with the clock ahead of each configured duration on the aged states (one finished / one failed "
+             "/ rich) and on generated states. "
              "distinct_nontrivial = distinct (backend, url) requests")
 
 
@@ -1194,7 +1226,26 @@ def translator_self_test(scratch: str) -> dict:
         "dynamic_dispatch": ("pynmon/views/home.py", "    broker_pending = active_app.broker.count_invocations()\n",
                              "    broker_pending = getattr(active_app.broker, request.query_params.get('m', 'count_invocations'))()\n"),
     }
+    impl_muts = {
+        "read_narrows_live_index_in_place": (
+            "pynenc/orchestrator/mem_orchestrator.py",
+            "            candidates = candidates.intersection(status_matches)\n\n        return len(candidates)",
+            "            candidates &= status_matches\n\n        return len(candidates)"),
+        "listing_sweeps_first": (
+            "pynenc/orchestrator/sqlite_orchestrator.py",
+            '        query = f"SELECT invocation_id FROM {self.tables.INVOCATIONS}"\n',
+            '        self.auto_purge()\n        query = f"SELECT invocation_id FROM {self.tables.INVOCATIONS}"\n'),
+        "read_pops_history": (
+            "pynenc/state_backend/mem_state_backend.py",
+            "    def _get_history(self, invocation_id: \"InvocationId\") -> list[\"InvocationHistory\"]:\n",
+            "    def _get_history(self, invocation_id: \"InvocationId\") -> list[\"InvocationHistory\"]:\n"
+            "        self._runner_contexts.pop(invocation_id, None)\n"),
+    }
+    translators = {name: routes_tr for name in muts}
+    translators.update({name: readimpl_tr for name in impl_muts})
+    muts = {**muts, **impl_muts}
     for name, (rel, old, new) in muts.items():
+        tr = translators[name]
         d = os.path.join(scratch, "selftest_" + name)
         os.makedirs(d)
         shutil.copytree(os.path.join(REPO, "pynmon"), os.path.join(d, "pynmon"))
@@ -1206,8 +1257,8 @@ def translator_self_test(scratch: str) -> dict:
             continue
         open(p, "w").write(src.replace(old, new, 1))
         try:
-            text, _ = routes_tr.translate(d)
-            base, _ = routes_tr.translate(REPO)
+            text, _ = tr.translate(d)
+            base, _ = tr.translate(REPO)
             out[name] = "detected" if text != base else "NOT DETECTED"
         except Exception as ex:  # noqa: BLE001
             out[name] = f"fails closed ({type(ex).__name__})"
